@@ -173,13 +173,21 @@ def run_case(case: dict) -> dict:
     viols: list[dict] = []
     counters: dict[str, int] = {"functions": 0, "translated": 0, "refused_none": 0, "refused_exception": 0, "points_compared": 0, "points_outside_domain": 0}
     sigs: list[str] = []
-    for fm in meta:
+    # second pass: the module-level constant the functions read is re-bound (as when a script cell is re-run) and the
+    # functions reading it are translated again in the same process; the translation must follow the function
+    second = [dict(fm, second_pass=True) for fm in meta if "module_constant" in fm["features"]]
+    for fm in [*meta, *second]:
+        if fm.get("second_pass") and not counters.get("module_constant_rebound"):
+            mod.C1 = twin["C1"] = 2.75
+            counters["module_constant_rebound"] = 1
+        if fm.get("second_pass"):
+            counters["functions_translated_again_after_rebinding"] = counters.get("functions_translated_again_after_rebinding", 0) + 1
         f = getattr(mod, fm["name"])
         ft = twin[fm["name"]]
         n = fm["nparams"]
         counters["functions"] += 1
         pts = points(n, rng)
-        for rname, margs in renamings(n):
+        for rname, margs in (renamings(n)[:1] if fm.get("second_pass") else renamings(n)):
             try:
                 e = fn_to_sympy(f, origin="c06", model_args=None if margs is None else [sympy.Symbol(m) for m in margs])
             except Exception:  # noqa: BLE001
@@ -214,11 +222,11 @@ def run_case(case: dict) -> dict:
                 sigs.append(core.sha([fm["source"], rname]))
             if bad:
                 shape = [x for x in fm["features"] if x.startswith("shape:")][0][6:]
-                cls = f"shape={shape}" + (";eq_ne" if "eq_ne" in fm["features"] else "") + (";nested_call" if "nested_call" in fm["features"] else "") + (
+                cls = ("after re-binding a module constant;" if fm.get("second_pass") else "") + f"shape={shape}" + (";eq_ne" if "eq_ne" in fm["features"] else "") + (";nested_call" if "nested_call" in fm["features"] else "") + (
                     ";own-name renaming" if rname in ("swap", "rotate", "shift") else "")
                 viols.append(core.viol(f"translated expression differs from the function [{cls}]", mech(fm, rname, bad), function=fm["source"], renaming=rname, model_args=margs,
                                        expression=str(e)[:400], features=fm["features"], **bad))
-        for ft in fm["features"]:
+        for ft in ([] if fm.get("second_pass") else fm["features"]):
             counters[f"feat:{ft}"] = counters.get(f"feat:{ft}", 0) + 1
     seen = set()
     out = []
